@@ -80,7 +80,7 @@ man = {
    {'name': 'E2', 'path': 'mc/core.py', 'serves_properties': engines.get('E2', []), 'kind_free_text': 'explicit-state BFS over call histories of real objects with canonical state hash and reference model'}],
  'checks': checks,
  'not_applicable': sorted(NA, key=lambda d: d['property_id']),
- 'notes': 'Known findings: known_findings.json (K1-K4 recorded, F1-F14 repaired by fix: commits in /repo).  Detection demonstration: seeded/ (253 property-breaking changes, 237 of them written by sub-agents that saw only the property text; catch matrix seeded/MATRIX.md) and refactors/ (34 behaviour-preserving changes on which every check stays silent); driver tools/seeded.py.  tools/run_all.sh runs every check for a list of seeds.  See DESIGN.md sections 4b, 5, 7, 9.',
+ 'notes': 'Known findings: known_findings.json (K1-K4 recorded, F1-F14 repaired by fix: commits in /repo).  Detection demonstration: seeded/ (307 property-breaking changes, 291 of them written by sub-agents that saw only the property text; catch matrix seeded/MATRIX.md) and refactors/ (64 behaviour-preserving changes on which every check stays silent); driver tools/seeded.py.  tools/run_all.sh runs every check for a list of seeds.  See DESIGN.md sections 4b, 5, 7, 9.',
 }
 json.dump(man, open(os.path.join(HERE, 'MANIFEST.json'), 'w'), indent=1)
 print('checks:', [c['property_id'] for c in checks])
